@@ -2,6 +2,8 @@
 
 from __future__ import annotations
 
+from mc.callers import clear_lru  # noqa: E402
+
 import warnings
 
 from checks.common import Fails, Report, detuple, np, threshold
@@ -70,6 +72,17 @@ def models():
         c = x <= p["p"]
         return dict(P=Problem().minimize(o).subject_to(c), exprs=[o, c.expr], vars=[x])
 
+    def m_paramonly(p):
+        # a constraint WITHOUT decision variables (a budget that only depends on data): satisfied or violated by the
+        # parameter alone
+        from optyx.core.expressions import Constant, Expression
+
+        x, y = xy()
+        o = (x - 3) ** 2
+        pe = p["p"] if isinstance(p["p"], Expression) else Constant(p["p"])
+        c0 = pe * 2 <= 10
+        return dict(P=Problem().minimize(o).subject_to(c0), exprs=[o, c0.expr], vars=[x])
+
     def m_concoef(p):
         x, y = xy()
         o = (x - 3) ** 2 + (y - 3) ** 2
@@ -121,6 +134,7 @@ def models():
         "inside-exp": ({"p": (1.0, 0.25, 0.0)}, m_inside),
         "constraint-rhs": ({"p": (1.0, 2.0, 3.5)}, m_rhs),
         "constraint-coef": ({"p": (1.0, 2.0, 0.0)}, m_concoef),
+        "parameter-only-constraint": ({"p": (3.0, 7.0, 4.0)}, m_paramonly),
         "two-params": ({"p": (1.0, 2.0, 3.0), "q": (1.5, 0.5, 2.5)}, m_two),
         "linear-in-x": ({"p": (1.0, 3.0, -1.0), "q": (1.0, 2.0, 0.5)}, m_linear),
         "vector-elements": ({"P": ((1.0, 2.0, 3.0), (3.0, 0.5, 1.0), (0.0, 4.0, 2.0))}, m_vecelems),
@@ -160,9 +174,9 @@ def compile_all(built, iterative):
 
     if iterative:
         with threshold(0, compiler, autodiff):
-            compiler._compile_cached.cache_clear()
+            clear_lru(compiler)
             out = mk()
-        compiler._compile_cached.cache_clear()
+        clear_lru(compiler)
         return out
     return mk()
 
@@ -211,6 +225,9 @@ def solve_observed(P, method, x0=None):
     return out, sigs
 
 
+LEAN_MODELS = {"parameter-only-constraint"}     # infeasible states make every real solve expensive
+
+
 class Driver:
     def __init__(self, name, nvals):
         self.name = name
@@ -224,7 +241,7 @@ class Driver:
             for i in range(self.nvals):
                 if model["values"][pn] != i:
                     out.append(("set", pn, i))
-        if len(self.pnames) > 1:
+        if len(self.pnames) > 1 or self.name in LEAN_MODELS:
             # two parameters: lean operation menu (the provenance space is 5^k in the number of caches)
             out += [("evaluate",), ("compile", "default"), ("call",), ("solve", "auto"), ("solve", "SLSQP")]
             return out
